@@ -25,11 +25,11 @@ def run(prop, tier, seed):
     c = common.Check(prop, tier, seed, "model_checking")
     # model
     mod = os.path.join(c.work, "MC_Daemon.tla")
-    with open("/verif/spec/mc/MC_Daemon.tla") as f:
+    with open(common.VERIF + "/spec/mc/MC_Daemon.tla") as f:
         text = f.read().replace("MaxSeq == 2", "MaxSeq == %d" % t["maxseq"]).replace("Cardinality(used) <= 3", "Cardinality(used) <= %d" % t["maxstrays"])
     with open(mod, "w") as f:
         f.write(text)
-    r = tlc.run(mod, "/verif/spec/mc/MC_Daemon.cfg", os.path.join(c.work, "tlc"), workers=8, xmx="10g", timeout=3600)
+    r = tlc.run(mod, common.VERIF + "/spec/mc/MC_Daemon.cfg", os.path.join(c.work, "tlc"), workers=8, xmx="10g", timeout=3600)
     if r.violated:
         raise common.ToolError("Daemon.tla violates %s in the model" % r.violated)
     # real daemons
